@@ -39,6 +39,9 @@ pub fn stats_case<T: Sc>(rng: &mut Rng, idx: usize, thorough: bool) -> FitCase<T
     let delta = if interp { 1 } else { deltas[idx % deltas.len()] };
     let n = ((total as i64 + delta).max(1)) as usize;
     let n = if thorough && delta == 20 { n + rng.below(40) } else { n };
+    // one case in forty: THOUSANDS of samples, not a multiple of 1024 / 2048 (row blocking of the
+    // normal matrix or of the band loop)
+    let n = if idx % 40 == 27 && !interp { [1025usize, 1500, 2049, 3000, 4099, 2500][(idx / 40) % 6] } else { n };
     recipe.x = (0..n)
         .map(|i| (((0.25 + 3.5 * (i as f64) / (n.max(2) - 1) as f64) + rng.uniform(-0.02, 0.02)) * 256.0).round() / 256.0)
         .collect();
@@ -241,6 +244,56 @@ pub fn emit_stats_case<T: Sc>(out: &mut Out, fc: &FitCase<T>) {
                     match (st.stats)(T::of(*p)) {
                         Ok(r) => out.line(&format!("st band {} ok {}", hex(T::of(*p).f()), vec_str(&r))),
                         Err(m) => out.line(&format!("st band {} panic {}", hex(T::of(*p).f()), m)),
+                    }
+                }
+            }
+            // every fifth case: a model failure DURING THE STATISTICS (after a successful fit): a dry fit
+            // counts the model calls K of the fit alone; then call K + j (j-th call made by the
+            // statistics) fails, for every j until the statistics make no further call
+            static EPISODES: std::sync::atomic::AtomicUsize = std::sync::atomic::AtomicUsize::new(0);
+            if f.ok && !reuse && !c.flavour.is_par() && EPISODES.fetch_add(1, std::sync::atomic::Ordering::Relaxed) % 5 == 2 {
+                let dry = Probe::new();
+                dry.logging.store(false, std::sync::atomic::Ordering::SeqCst);
+                let dm = make_model::<T>(&c.recipe, &c.init, c.built, &dry);
+                if let Ok(Ok(dp)) = guarded(|| build_problem(c.flavour, dm, &c.y, wv.as_ref(), c.eps)) {
+                    let lmd = fc.cfg.build::<T>();
+                    if let Some(Ok(fo)) = with_deadline(20, move || dp.fit(lmd)) {
+                        let k = dry.count();
+                        if fo.ok {
+                            for j in 0..(c.recipe.p() + 3) {
+                                let pr = Probe::new();
+                                pr.logging.store(false, std::sync::atomic::Ordering::SeqCst);
+                                pr.set_fault(k + j, k + j + 1);
+                                let pm = make_model::<T>(&c.recipe, &c.init, c.built, &pr);
+                                let pp = match guarded(|| build_problem(c.flavour, pm, &c.y, wv.as_ref(), c.eps)) {
+                                    Ok(Ok(p)) => p,
+                                    _ => break,
+                                };
+                                let lmf = fc.cfg.build::<T>();
+                                let r = with_deadline(20, move || pp.fit_stats(lmf));
+                                // reached BY fit_with_statistics (the harness' own accessor calls after its
+                                // return do not count)
+                                let reached = match &r {
+                                    Some(Ok(so)) => so.fit.calls_at_return > k + j,
+                                    _ => pr.count() > k + j,
+                                };
+                                match r {
+                                    None => out.line(&format!("statfault j={} k={} reached={} outcome=hang", j, k, reached as u8)),
+                                    Some(Err(m)) => out.line(&format!("statfault j={} k={} reached={} outcome=panic:{}", j, k, reached as u8, m)),
+                                    Some(Ok(so)) => out.line(&format!(
+                                        "statfault j={} k={} reached={} outcome=returned ok={} hasstats={}",
+                                        j,
+                                        k,
+                                        reached as u8,
+                                        so.fit.ok as u8,
+                                        so.stats.is_some() as u8
+                                    )),
+                                }
+                                if !reached {
+                                    break;
+                                }
+                            }
+                        }
                     }
                 }
             }
